@@ -137,3 +137,10 @@ func ghost_accepts(vs []validatorTag, v interface{}) bool { return runValidators
 func ghost_implOf(t, u reflect.Type) bool     { return t.Implements(u) }
 func ghost_ptrTo(t reflect.Type) reflect.Type { return reflect.PtrTo(t) }
 func ghost_valRes(x Validator) error          { return x.Validate() }
+
+func ghost_rvStr(v reflect.Value) string {
+	if v.Kind() == reflect.String {
+		return v.String()
+	}
+	return ""
+}
